@@ -394,7 +394,8 @@ def mk_sens_slope(x):
     d = np.ones(nd)
     for i in range(n - 1):
         for j in range(i + 1, n):
-            d[ix] = (x[j] - x[i]) / (j - i)
+            # float() keeps narrow integer samples from wrapping when interpreted
+            d[ix] = (float(x[j]) - float(x[i])) / (j - i)
             ix += 1
 
     slope = np.nanmedian(d)
